@@ -199,9 +199,8 @@ type CellIDSnapper struct {
 
 // NewCellIDSnapper returns a snap function with the default level set.
 func NewCellIDSnapper() CellIDSnapper {
-	return CellIDSnapper{
-		level: MaxLevel,
-	}
+	// (Also sets the snap radius that belongs to the level.)
+	return CellIDSnapperForLevel(MaxLevel)
 }
 
 // CellIDSnapperForLevel returns a snap function at the given level.
